@@ -21,6 +21,12 @@
 //!  9. history.independent (sequences on dedicated OS threads; panicking item sources,
 //!     failing sinks, abandoned iterators, re-entrant constructions), handed_out.iterators
 //!     (call sequences on the set iterators), display.parameters (format specs).
+//! 10. routes.* : EVERY PUBLIC ROUTE that yields a value of the property's types outside
+//!     src/resources: AspaBuilder (all operation sequences) -> finalize -> ProviderAsSet::to_set /
+//!     iter, Aspa::decode of built and of independently encoded DER, Aspa serde;
+//!     RoaBuilder::to_attestation / Roa::decode -> iter_origins, FriendlyRoaIpAddress -> Prefix;
+//!     rtr::pdu::Payload (constructed and read from the wire) -> to_payload; SLURM JSON;
+//!     From conversions; Arbitrary for SmallAsnSet / Payload. Whatever comes out obeys the value laws.
 //!  Every ordering is also checked through partial_cmp and < <= > >=; every
 //!  "equal => same hash" under three hashers (std, FxHash-style, write-call digest).
 //!
@@ -41,6 +47,16 @@ use rayon::prelude::*;
 use rpki::resources::addr::{MaxLenPrefix, Prefix};
 use rpki::resources::asn::{Asn, SmallAsnSet};
 use rpki::rtr::payload::{Payload, PayloadRef, PayloadType, RouteOrigin};
+use rpki::rtr::pdu;
+use rpki::repository::aspa::{Aspa, AspaBuilder};
+use rpki::repository::roa::{Roa, RoaBuilder, RoaIpAddress};
+use rpki::repository::resources::{IpBlock, Prefix as ResPrefix};
+use rpki::repository::sigobj::SignedObjectBuilder;
+use rpki::repository::x509::{Time, Validity};
+use rpki::crypto::{PublicKey, PublicKeyFormat, Signature, SignatureAlgorithm, Signer, SigningError};
+use rpki::crypto::signer::KeyError;
+use rpki_verif::engine::der;
+use rpki_verif::engine::signer::{sha256, Kid, PoolSigner};
 use bcder::encode::Values as _;
 use rpki_verif::engine::enumerate::{seq_at, seq_count};
 use rpki_verif::{guard, Ctx};
@@ -633,6 +649,642 @@ fn history_spaces(ctx: &Ctx, t0: &std::time::Instant) {
         sp.done(true, &format!("{} values x 41 widths/precisions x 16 format specs", vals.len()));
         lap(t0, &sp.name);
     }
+}
+
+// ------------------------------------------------ every public route that yields a value of the property's types
+
+/// The value laws of a prefix, however it was obtained: construction invariants, equal in every respect to the
+/// value the public constructor makes from its own accessors, text and serde forms parse back.
+fn prefix_laws(x: Prefix) -> Result<MP, String> {
+    let o = prefix_invariant(x)?;
+    let y = Prefix::new(o.ip(), o.len).map_err(|e| format!("Prefix::new({}, {}) of its own accessors fails: {e}", o.ip(), o.len))?;
+    if !(x == y) || !(y == x) || x.cmp(&y) != Ordering::Equal { return Err(format!("{x:?} vs the constructed {y:?}: == {}, cmp {:?}", x == y, x.cmp(&y))) }
+    if h(&x) != h(&y) { return Err(format!("{x:?} and the equal constructed {y:?} {}", hash_diff(h(&x), h(&y)))) }
+    ops_vs_cmp(&x, &y, 0)?;
+    if !x.covers(y) || !y.covers(x) { return Err("does not cover its constructed twin".into()) }
+    let t = x.to_string();
+    if t != o.text() { return Err(format!("Display gives {t:?}, expected {:?}", o.text())) }
+    match Prefix::from_str(&t) { Ok(q) if q == x && h(&q) == h(&x) => {}, other => return Err(format!("{t} parses back to {other:?}, not to {x:?}")) }
+    match serde_json::to_value(x).ok().and_then(|v| serde_json::from_value::<Prefix>(v).ok()) { Some(q) if q == x => {}, other => return Err(format!("{t} through Serialize / Deserialize comes back as {other:?}")) }
+    Ok(o)
+}
+/// The value laws of a max-len prefix: prefix laws, prefix length <= max-len <= family maximum, accessors, twin, text.
+fn maxlen_laws(x: MaxLenPrefix) -> Result<(MP, Option<u8>), String> {
+    let o = prefix_laws(x.prefix())?;
+    let ml = x.max_len();
+    if let Some(m) = ml { if m < o.len || m > fam_max(o.v4) { return Err(format!("{}-{m}: max-len outside [{}, {}]", o.text(), o.len, fam_max(o.v4))) } }
+    if x.resolved_max_len() != ml.unwrap_or(o.len) || x.prefix_len() != o.len || x.addr() != o.ip() { return Err(format!("accessors of {x:?} disagree: resolved_max_len {} prefix_len {} addr {}", x.resolved_max_len(), x.prefix_len(), x.addr())) }
+    let y = MaxLenPrefix::new(x.prefix(), ml).map_err(|e| format!("MaxLenPrefix::new of its own accessors fails: {e}"))?;
+    if !(x == y) || x.cmp(&y) != Ordering::Equal || h(&x) != h(&y) { return Err(format!("{x:?} vs the constructed {y:?}: == {}, cmp {:?}, hashes {}", x == y, x.cmp(&y), hash_diff(h(&x), h(&y)))) }
+    ops_vs_cmp(&x, &y, 0)?;
+    let want = match ml { None => o.text(), Some(m) => format!("{}-{m}", o.text()) };
+    if x.to_string() != want { return Err(format!("Display gives {:?}, expected {want:?}", x.to_string())) }
+    match MaxLenPrefix::from_str(&want) { Ok(q) if q == x && h(&q) == h(&x) => {}, other => return Err(format!("{want} parses back to {other:?}, not to {x:?}")) }
+    Ok((o, ml))
+}
+/// The value laws of a route origin: those of its max-len prefix; equal (==, cmp, three hashers, as Payload) to the
+/// origin constructed from its own accessors AND to the other spelling of the same effective max-len; ASN text.
+fn origin_laws(x: RouteOrigin) -> Result<(MP, u8, u32), String> {
+    let (o, ml) = maxlen_laws(x.prefix)?;
+    let p = Prefix::new(o.ip(), o.len).map_err(|e| e.to_string())?;
+    let asn = Asn::from_u32(x.asn.into_u32());
+    let other_spelling = if ml.is_none() { Some(o.len) } else if ml == Some(o.len) { None } else { ml };
+    for m in [ml, other_spelling] {
+        let y = RouteOrigin::new(MaxLenPrefix::new(p, m).map_err(|e| e.to_string())?, asn);
+        if !(x == y) || !(y == x) || x.cmp(&y) != Ordering::Equal || h(&x) != h(&y) { return Err(format!("{x:?} vs the constructed {y:?}: == {}, cmp {:?}, hashes {}", x == y, x.cmp(&y), hash_diff(h(&x), h(&y)))) }
+        ops_vs_cmp(&x, &y, 0)?;
+        let (px, py) = (Payload::from(x), Payload::from(y));
+        if px != py || px.cmp(&py) != Ordering::Equal || h(&px) != h(&py) || h(&px.as_ref()) != h(&py.as_ref()) { return Err(format!("the payload of {x:?} differs from the payload of the constructed {y:?}")) }
+    }
+    if x.is_v4() != o.v4 { return Err(format!("is_v4() = {}", x.is_v4())) }
+    match Asn::from_str(&x.asn.to_string()) { Ok(q) if q == x.asn => {}, other => return Err(format!("{} parses back to {other:?}", x.asn)) }
+    Ok((o, ml.unwrap_or(o.len), x.asn.into_u32()))
+}
+
+/// Partner sets and probe values for the set laws: every subset of a small universe around the menu.
+struct SetCtx { others: Vec<(SmallAsnSet, BTreeSet<u32>)>, probes: Vec<u32> }
+fn set_ctx(menu: &[u32]) -> SetCtx {
+    let mut uni: Vec<u32> = menu.to_vec(); uni.push(menu[1] + 1); uni.sort(); uni.dedup();
+    let others = (0u32..(1 << uni.len())).map(|mask| {
+        let m: BTreeSet<u32> = uni.iter().enumerate().filter(|(i, _)| mask >> i & 1 == 1).map(|(_, x)| *x).collect();
+        (m.iter().map(|&x| Asn::from_u32(x)).collect::<SmallAsnSet>(), m)
+    }).collect();
+    let mut probes: Vec<u32> = uni.iter().flat_map(|&x| [x.wrapping_sub(1), x, x.wrapping_add(1)]).collect(); probes.sort(); probes.dedup();
+    SetCtx { others, probes }
+}
+/// The value laws of a small AS-number set, however it was obtained: iteration strictly ascending (sorted, no
+/// duplicate), len / is_empty / IntoIterator / contains agree with the items, equal in every respect to FromIterator
+/// of its own items, and the four set operations with every partner set (both argument orders) are the mathematical ones.
+fn set_laws(s: &SmallAsnSet, sc: &SetCtx) -> Result<Vec<u32>, String> {
+    let items: Vec<u32> = s.iter().map(|a| a.into_u32()).collect();
+    if !items.windows(2).all(|w| w[0] < w[1]) { return Err(format!("the set iterates as {items:?}: not strictly ascending (unsorted or with a duplicate)")) }
+    if s.len() != items.len() || s.is_empty() != items.is_empty() { return Err(format!("len() = {}, is_empty() = {} for the items {items:?}", s.len(), s.is_empty())) }
+    if s.into_iter().map(|a| a.into_u32()).collect::<Vec<_>>() != items { return Err("IntoIterator differs from iter()".into()) }
+    let again: SmallAsnSet = s.iter().collect();
+    if *s != again || again != *s || s.cmp(&again) != Ordering::Equal || h(s) != h(&again) { return Err(format!("differs from FromIterator of its own items {items:?}")) }
+    if s.clone() != *s { return Err("a clone differs".into()) }
+    let m: BTreeSet<u32> = items.iter().copied().collect();
+    for &x in &sc.probes { if s.contains(Asn::from_u32(x)) != m.contains(&x) { return Err(format!("contains({x}) = {} for the items {items:?}", s.contains(Asn::from_u32(x)))) } }
+    let v = |i: &mut dyn Iterator<Item = Asn>| i.map(|q| q.into_u32()).collect::<Vec<u32>>();
+    for (o, om) in &sc.others {
+        let bad = |name: &str, got: Vec<u32>, want: Vec<u32>| format!("{name} of {items:?} and {:?} gives {got:?}, the mathematical result is {want:?}", om.iter().collect::<Vec<_>>());
+        let (g, w) = (v(&mut s.union(o)), m.union(om).copied().collect::<Vec<_>>()); if g != w { return Err(bad("union", g, w)) }
+        let (g, w) = (v(&mut o.union(s)), m.union(om).copied().collect::<Vec<_>>()); if g != w { return Err(bad("union (as right operand)", g, w)) }
+        let (g, w) = (v(&mut s.intersection(o)), m.intersection(om).copied().collect::<Vec<_>>()); if g != w { return Err(bad("intersection", g, w)) }
+        let (g, w) = (v(&mut o.intersection(s)), m.intersection(om).copied().collect::<Vec<_>>()); if g != w { return Err(bad("intersection (as right operand)", g, w)) }
+        let (g, w) = (v(&mut s.difference(o)), m.difference(om).copied().collect::<Vec<_>>()); if g != w { return Err(bad("difference", g, w)) }
+        let (g, w) = (v(&mut o.difference(s)), om.difference(&m).copied().collect::<Vec<_>>()); if g != w { return Err(bad("difference (as right operand)", g, w)) }
+        let (g, w) = (v(&mut s.symmetric_difference(o)), m.symmetric_difference(om).copied().collect::<Vec<_>>()); if g != w { return Err(bad("symmetric_difference", g, w)) }
+        let (g, w) = (v(&mut o.symmetric_difference(s)), m.symmetric_difference(om).copied().collect::<Vec<_>>()); if g != w { return Err(bad("symmetric_difference (as right operand)", g, w)) }
+    }
+    Ok(items)
+}
+
+/// Signatures are no part of this property: the signed-object routes are driven with a signer that hands out the
+/// pool's public keys and a constant octet string as every signature (no object built here is ever validated).
+struct CheapSigner<'a>(&'a PoolSigner);
+impl Signer for CheapSigner<'_> {
+    type KeyId = Kid;
+    type Error = std::io::Error;
+    fn create_key(&self, a: PublicKeyFormat) -> Result<Kid, std::io::Error> { self.0.create_key(a) }
+    fn get_key_info(&self, k: &Kid) -> Result<PublicKey, KeyError<std::io::Error>> { self.0.get_key_info(k) }
+    fn destroy_key(&self, k: &Kid) -> Result<(), KeyError<std::io::Error>> { self.0.destroy_key(k) }
+    fn sign<Alg: SignatureAlgorithm, D: AsRef<[u8]> + ?Sized>(&self, _k: &Kid, alg: Alg, _d: &D) -> Result<Signature<Alg>, SigningError<std::io::Error>> {
+        Ok(Signature::new(alg, bytes::Bytes::from_static(&[0x5a; 256])))
+    }
+    fn sign_one_off<Alg: SignatureAlgorithm, D: AsRef<[u8]> + ?Sized>(&self, alg: Alg, _d: &D) -> Result<(Signature<Alg>, PublicKey), std::io::Error> {
+        Ok((Signature::new(alg, bytes::Bytes::from_static(&[0x5a; 256])), self.0.public(7)))
+    }
+    fn rand(&self, target: &mut [u8]) -> Result<(), std::io::Error> { for b in target.iter_mut() { *b = 0x5a } Ok(()) }
+}
+fn rsync(s: &str) -> rpki::uri::Rsync { rpki::uri::Rsync::from_str(s).unwrap() }
+fn sigobj_builder() -> SignedObjectBuilder {
+    let mut b = SignedObjectBuilder::new(123u64.into(), Validity::new(Time::utc(2024, 1, 1, 0, 0, 0), Time::utc(2034, 1, 1, 0, 0, 0)),
+        rsync("rsync://example.com/ca/ca.crl"), rsync("rsync://example.com/parent/ca.cer"), rsync("rsync://example.com/ca/object"));
+    b.set_signing_time(Time::utc(2024, 6, 1, 0, 0, 0));
+    b
+}
+/// A CMS signed object around `content`, written with the independent encoder; `cert` is an EE certificate taken from
+/// a library-built object (decoding does not verify the signature or the certificate's resources).
+fn signed_object_der(ect: &[u64], content: Vec<u8>, cert: &[u8], ski: &[u8]) -> Vec<u8> {
+    let attrs = vec![der::attr_content_type(ect), der::attr_message_digest(&sha256(&content)), der::attr_signing_time(der::utctime(der::Civil { y: 2024, mo: 6, d: 1, h: 0, mi: 0, s: 0 }))];
+    der::signed_data(&der::SignedDataParts { version: 3, digest_alg_set: der::set_unsorted(&[der::alg_sha256(false)]), econtent_type: ect.to_vec(), econtent: content,
+        certificates: vec![cert.to_vec()], crls: vec![], si_version: 3, sid: ski.to_vec(), si_digest_alg: der::alg_sha256(false), signed_attrs: attrs,
+        sig_alg: der::alg_rsa_encryption(), signature: vec![0x5a; 256] })
+}
+fn show_asns(l: &[u32]) -> String { format!("[{}]", l.iter().map(|x| format!("AS{x}")).collect::<Vec<_>>().join(", ")) }
+const SIZE_CLASS: [&str; 6] = ["set-of-0-items", "set-of-1-item", "set-of-2-items", "set-of-3-items", "set-of-4-items", "set-of-5-or-more-items"];
+
+fn routes_spaces(ctx: &Ctx, t0: &std::time::Instant) {
+    ctx.assume("signatures are no part of C13: the signed-object routes (AspaBuilder / RoaBuilder finalize, the CMS wrapper of independently encoded content) carry a constant octet string as signature; the objects are decoded, never validated");
+    let thorough = ctx.tier.is_thorough();
+    let pool = PoolSigner::load();
+    let signer = CheapSigner(&pool);
+    // ASN menu: DER INTEGER contents of 1, 2, 3 and 5 octets (00, 00c8, 010000, 00ffffffff), so that numeric order, order of
+    // the encodings and order of the encoded lengths all differ
+    let menu: [u32; 4] = [0, 200, 65536, u32::MAX];
+    let sc = set_ctx(&menu);
+    let mut idx = Vec::new();
+    let lists3: Vec<Vec<u32>> = (0..seq_count(4, 3)).map(|i| { seq_at(4, 3, i, &mut idx); idx.iter().map(|&k| menu[k]).collect() }).collect();
+
+    // --------------------------------------------------------------------------- routes.aspa_builder
+    let op_len: u32 = ctx.tier.pick(3, 4);
+    let sp = ctx.space("routes.aspa_builder",
+        "AspaBuilder as a state machine: customer in {AS64496, a menu ASN} x construction form {empty(), new(Vec) for EVERY list of <= 3 menu ASNs (sorted, unsorted, with duplicates); thorough: also new(&[Asn])} x EVERY sequence of <= 3 (thorough 4) add_provider calls over the 4-ASN menu {0, 200, 65536, MAX}, then finalize; the SmallAsnSet handed out by content().provider_as_set().to_set() must obey the set laws (strictly ascending, duplicate-free, len / contains / IntoIterator consistent, equal to FromIterator of its own items, union / intersection / difference / symmetric_difference with all 32 subsets of {0, 200, 201, 65536, MAX} in both argument orders equal to BTreeSet) and must be the set of the items the builder accepted (construction list + additions answered Ok); ProviderAsSet::iter / len agree with it; the same laws and equality for the set obtained by Aspa::decode (strict and not) of the built object's own encoding and through Serialize -> Deserialize, whenever those accept; the builder's verdicts themselves are counted against the set model, not judged; non-trivial = cases whose accepted items, in the order given, are not already strictly ascending");
+    {
+        let opseqs: Vec<Vec<u32>> = (0..seq_count(4, op_len)).map(|i| { seq_at(4, op_len, i, &mut idx); idx.iter().map(|&k| menu[k]).collect() }).collect();
+        let n_forms = 1 + lists3.len() * if thorough { 2 } else { 1 };
+        let customers = [64496u32, menu[1]];
+        let n_cases = customers.len() * n_forms * opseqs.len();
+        let verdict_diffs = AtomicU64::new(0);
+        batched(ctx, n_cases, 8192, |ci, fl| {
+            let mut oc: Oc = BTreeMap::new();
+            let (cust, rest) = (customers[ci % customers.len()], ci / customers.len());
+            let (form, ops) = (rest % n_forms, &opseqs[rest / n_forms]);
+            let list: Option<&Vec<u32>> = if form == 0 { None } else { Some(&lists3[(form - 1) % lists3.len()]) };
+            let as_slice = form > lists3.len();
+            let plan = format!("customer=AS{cust} ; {} ; {}finalize", match list { None => "AspaBuilder::empty()".to_string(), Some(l) => format!("AspaBuilder::new({} {})", if as_slice { "&" } else { "vec" }, show_asns(l)) },
+                ops.iter().map(|x| format!("add_provider(AS{x}) ; ")).collect::<String>());
+            // build: (object, accepted items in order, verdict log, verdicts differing from the set model)
+            let built = guard(|| {
+                let c = Asn::from_u32(cust);
+                let mut accepted: Vec<u32> = Vec::new(); let mut log: Vec<String> = Vec::new(); let mut model: BTreeSet<u32> = BTreeSet::new(); let mut diffs = 0u64;
+                let mut b = match list {
+                    None => AspaBuilder::empty(c),
+                    Some(l) => {
+                        let v: Vec<Asn> = l.iter().map(|&x| Asn::from_u32(x)).collect();
+                        let model_ok = l.iter().all(|x| model.insert(*x));
+                        match if as_slice { AspaBuilder::new(c, v.as_slice()) } else { AspaBuilder::new(c, v) } {
+                            Ok(b) => { if !model_ok { diffs += 1 } accepted.extend(l.iter().copied()); log.push("new -> Ok".into()); b }
+                            Err(_) => { if model_ok { diffs += 1 } return (None, accepted, vec!["new -> refused".to_string()], diffs) }
+                        }
+                    }
+                };
+                for &x in ops.iter() {
+                    let model_ok = model.insert(x);
+                    match b.add_provider(Asn::from_u32(x)) {
+                        Ok(()) => { if !model_ok { diffs += 1 } accepted.push(x); log.push(format!("add_provider(AS{x}) -> Ok")) }
+                        Err(_) => { if model_ok { diffs += 1; model.remove(&x); } log.push(format!("add_provider(AS{x}) -> refused")) }
+                    }
+                }
+                (b.finalize(sigobj_builder(), &signer, &Kid(0)).ok(), accepted, log, diffs)
+            });
+            let (aspa, accepted, log, diffs) = match built { Ok(x) => x, Err(p) => { fl.fail("C13.routes.nopanic", &|| plan.clone(), || p); sp.outcome("panicked"); return } };
+            verdict_diffs.fetch_add(diffs, AtomicOrdering::Relaxed);
+            let Some(aspa) = aspa else { bump(&mut oc, if log.last().map(|l| l.starts_with("new")).unwrap_or(false) { "construction-list-refused" } else { "finalize-failed" }); sp.merge_outcomes(&oc); return };
+            if log.iter().any(|l| l.ends_with("refused")) { bump(&mut oc, "an-addition-was-refused") }
+            if !accepted.windows(2).all(|w| w[0] < w[1]) { sp.nontrivial(1) }
+            let wit = |route: &str| format!("{plan} ; {route}   [builder verdicts: {}]", log.join(", "));
+            let want: Vec<u32> = accepted.iter().copied().collect::<BTreeSet<u32>>().into_iter().collect();
+            let set = match guard(|| aspa.content().provider_as_set().to_set()) { Ok(s) => s, Err(p) => { fl.fail("C13.routes.nopanic", &|| wit("content().provider_as_set().to_set()"), || p); return } };
+            bump(&mut oc, SIZE_CLASS[set.len().min(5)]);
+            fl.check("C13.routes.asnset.laws", &|| wit("content().provider_as_set().to_set()"), || set_laws(&set, &sc).map(|_| ()));
+            fl.check("C13.routes.asnset.items", &|| wit("content().provider_as_set()"), || {
+                let pas = aspa.content().provider_as_set();
+                let got: Vec<u32> = set.iter().map(|a| a.into_u32()).collect();
+                if got != want { return Err(format!("to_set() iterates as {got:?}; the builder accepted the items {accepted:?}, i.e. the set {want:?}")) }
+                let it: Vec<u32> = pas.iter().map(|a| a.into_u32()).collect();
+                if it != got || pas.len() != got.len() { return Err(format!("ProviderAsSet::iter() yields {it:?} and len() = {}, to_set() holds {got:?}", pas.len())) }
+                if pas.to_set() != set || aspa.content().clone().provider_as_set().to_set() != set { return Err("a second to_set() / to_set() of a clone differs".into()) }
+                if aspa.content().customer_as().into_u32() != cust { return Err(format!("customer_as() = {}", aspa.content().customer_as())) }
+                Ok(())
+            });
+            // the decode routes on the object's own encoding
+            let bytes = aspa.to_captured().into_bytes();
+            let mut twins: Vec<(&'static str, Option<Aspa>)> = Vec::new();
+            for (name, strict) in [("Aspa::decode(its encoding, strict) ; content().provider_as_set().to_set()", true), ("Aspa::decode(its encoding, not strict) ; content().provider_as_set().to_set()", false)] {
+                match guard(|| Aspa::decode(bytes.clone(), strict)) { Ok(r) => twins.push((name, r.ok())), Err(p) => fl.fail("C13.routes.nopanic", &|| wit(name), || p) }
+            }
+            match guard(|| serde_json::to_value(&aspa).ok().and_then(|v| serde_json::from_value::<Aspa>(v).ok())) {
+                Ok(r) => twins.push(("Serialize ; Deserialize ; content().provider_as_set().to_set()", r)), Err(p) => fl.fail("C13.routes.nopanic", &|| wit("Serialize ; Deserialize"), || p) }
+            for (name, tw) in &twins {
+                match tw {
+                    None => bump(&mut oc, "own-encoding-refused-by-a-decode-route"),
+                    Some(d) => { bump(&mut oc, "own-encoding-accepted-by-a-decode-route");
+                        let ds = match guard(|| d.content().provider_as_set().to_set()) { Ok(s) => s, Err(p) => { fl.fail("C13.routes.nopanic", &|| wit(name), || p); continue } };
+                        fl.check("C13.routes.asnset.laws", &|| wit(name), || set_laws(&ds, &sc).map(|_| ()));
+                        fl.check("C13.routes.asnset.agree", &|| wit(name), || if ds == set && h(&ds) == h(&set) && ds.cmp(&set) == Ordering::Equal { Ok(()) } else {
+                            Err(format!("the decoded twin's set iterates as {:?}, the built object's as {:?}", ds.iter().map(|a| a.into_u32()).collect::<Vec<_>>(), set.iter().map(|a| a.into_u32()).collect::<Vec<_>>())) });
+                    }
+                }
+            }
+            sp.merge_outcomes(&oc);
+        });
+        sp.evals(n_cases as u64 * 4);
+        sp.set("asn_menu", json!(menu)); sp.set("construction_forms", json!(n_forms)); sp.set("operation_sequences", json!(opseqs.len())); sp.set("customers", json!(customers));
+        sp.set("builder_verdicts_differing_from_the_set_model_counted_not_judged", json!(verdict_diffs.load(AtomicOrdering::Relaxed)));
+        sp.sample_str(|| "customer=AS64496 ; AspaBuilder::new(vec [AS4294967295, AS0, AS200]) ; add_provider(AS4294967295) ; finalize ; content().provider_as_set().to_set() must iterate as [0, 200, 4294967295] whatever the builder answered".into());
+        sp.done(true, &format!("{} customers x {n_forms} construction forms (all lists of <= 3 over 4 ASNs) x {} add_provider sequences of length <= {op_len} = {n_cases} built objects x 4 routes to the set", customers.len(), opseqs.len()));
+        lap(t0, &sp.name);
+    }
+
+    // ---------------------------------------------------------------------------- routes.aspa_decode
+    let sp = ctx.space("routes.aspa_decode",
+        "Aspa::decode (strict and not) and Deserialize of INDEPENDENTLY ENCODED signed objects (engine::der; the EE certificate is taken from a library-built ASPA) whose provider list is EVERY sequence of <= 4 (thorough 5) menu ASNs - empty, sorted, unsorted, with duplicates, containing the customer - for customer in {AS64496, a menu ASN}: whatever the decoder accepts must hand out, through content().provider_as_set().to_set(), a set that obeys the set laws and holds exactly the encoded items; iter() / len() agree; the decoder's verdict is counted against the profile (non-empty, strictly ascending, customer not a provider), not judged; non-trivial = accepted objects");
+    {
+        let dl: u32 = ctx.tier.pick(4, 5);
+        let lists: Vec<Vec<u32>> = (0..seq_count(4, dl)).map(|i| { seq_at(4, dl, i, &mut idx); idx.iter().map(|&k| menu[k]).collect() }).collect();
+        let template = guard(|| AspaBuilder::new(Asn::from_u32(64496), vec![Asn::from_u32(64497)]).ok().and_then(|b| b.finalize(sigobj_builder(), &signer, &Kid(0)).ok()));
+        match template {
+            Ok(Some(t)) => {
+                let cert = t.cert().to_captured().as_slice().to_vec();
+                let ski = t.cert().subject_key_identifier().as_slice().to_vec();
+                let customers = [64496u32, menu[1]];
+                let verdict_diffs = AtomicU64::new(0);
+                batched(ctx, lists.len() * customers.len(), 4096, |ci, fl| {
+                    let mut oc: Oc = BTreeMap::new();
+                    let (l, cust) = (&lists[ci / customers.len()], customers[ci % customers.len()]);
+                    let bytes = bytes::Bytes::from(signed_object_der(der::OID_CT_ASPA, der::aspa_content(Some(1), cust as u128, &l.iter().map(|&x| x as u128).collect::<Vec<_>>()), &cert, &ski));
+                    let profile_ok = !l.is_empty() && l.windows(2).all(|w| w[0] < w[1]) && !l.contains(&cust);
+                    for route in 0..3usize {
+                        let name = ["Aspa::decode(strict)", "Aspa::decode(not strict)", "Deserialize"][route];
+                        let wit = || format!("independently encoded ASPA: customer=AS{cust} providers={} ; {name} ; content().provider_as_set().to_set()", show_asns(l));
+                        let got = guard(|| match route { 0 => Aspa::decode(bytes.clone(), true).ok(), 1 => Aspa::decode(bytes.clone(), false).ok(),
+                            _ => { use base64::Engine as _; serde_json::from_value::<Aspa>(serde_json::Value::String(base64::engine::general_purpose::STANDARD.encode(&bytes))).ok() } });
+                        match got {
+                            Err(p) => fl.fail("C13.routes.nopanic", &wit, || p),
+                            Ok(None) => { bump(&mut oc, "refused"); if profile_ok { verdict_diffs.fetch_add(1, AtomicOrdering::Relaxed); } }
+                            Ok(Some(a)) => {
+                                bump(&mut oc, "accepted"); sp.nontrivial(1); if !profile_ok { verdict_diffs.fetch_add(1, AtomicOrdering::Relaxed); }
+                                let set = match guard(|| a.content().provider_as_set().to_set()) { Ok(s) => s, Err(p) => { fl.fail("C13.routes.nopanic", &wit, || p); continue } };
+                                bump(&mut oc, SIZE_CLASS[set.len().min(5)]);
+                                fl.check("C13.routes.asnset.laws", &wit, || set_laws(&set, &sc).map(|_| ()));
+                                fl.check("C13.routes.asnset.items", &wit, || {
+                                    let pas = a.content().provider_as_set();
+                                    let got: Vec<u32> = set.iter().map(|x| x.into_u32()).collect();
+                                    if got != *l { return Err(format!("to_set() iterates as {got:?}, the object encodes {l:?}")) }
+                                    let it: Vec<u32> = pas.iter().map(|x| x.into_u32()).collect();
+                                    if it != got || pas.len() != got.len() { return Err(format!("ProviderAsSet::iter() yields {it:?} and len() = {}, to_set() holds {got:?}", pas.len())) }
+                                    if a.content().customer_as().into_u32() != cust { return Err(format!("customer_as() = {}", a.content().customer_as())) }
+                                    Ok(())
+                                });
+                            }
+                        }
+                    }
+                    sp.merge_outcomes(&oc);
+                });
+                sp.evals((lists.len() * customers.len() * 3) as u64);
+                sp.set("decoder_verdicts_differing_from_the_profile_counted_not_judged", json!(verdict_diffs.load(AtomicOrdering::Relaxed)));
+                sp.sample_str(|| "independently encoded ASPA: customer=AS64496 providers=[AS200, AS0] -> the decoder must refuse it or hand out a lawful set".into());
+                sp.done(true, &format!("{} provider lists (all sequences of <= {dl} over 4 ASNs) x 2 customers x 3 decode routes", lists.len()));
+            }
+            other => { ctx.fail("C13.routes.nopanic", "AspaBuilder::new(AS64496, [AS64497]) ; finalize", format!("the template object could not be built: {:?}", other.map(|o| o.is_some()))); sp.done(false, "template object could not be built") }
+        }
+        lap(t0, &sp.name);
+    }
+
+    // ------------------------------------------------------------------------------------ routes.roa
+    let sp = ctx.space("routes.roa",
+        "ROA routes to Prefix / MaxLenPrefix / RouteOrigin. (a) RoaBuilder (no signing: to_attestation): family x EVERY prefix length 0..=128 (the builder's own limit) x 4 address patterns (all ones, zero, alternating, lowest bit) x 3 push forms (push_addr, push_v4_addr / push_v6_addr, push_v4 / push_v6 of RoaIpAddress::new(resources::Prefix::new(..))) with one entry per max-len in {None, 0, len-1, len, len+1, 31, 32, 33, 127, 128, 129, 255}, plus mixed-family builders: every origin iter_origins() yields obeys the origin laws; the origins yielded are exactly the entries that are valid by the integer model (length <= family, length <= max-len <= family), host bits cleared, in order; every FriendlyRoaIpAddress from iter() whose length fits the family converts (From) to a lawful Prefix equal to the constructed one and its text parses as MaxLenPrefix to the constructed twin when the entry is valid; a conversion that panics for a length beyond the family (documented expect) is an outcome class. (b) Roa::decode (strict and not) of independently encoded objects with one address: family x every BIT STRING length 0..=40 / 0..=136 x 3 patterns x max-len in the set above and 256: what the decoder accepts is judged the same way. (c) From<Prefix> for MaxLenPrefix and for repository::resources::IpBlock over the prefix domain; non-trivial = entries valid by the model");
+    {
+        let asn = 64496u32;
+        let pats = |w: u32| -> [u128; 4] { let full = low_ones(w); [full, 0, full / 3, 1] };
+        let mls = |len: u8| -> Vec<Option<u8>> { let mut v: Vec<Option<u8>> = vec![None, Some(0), Some(len.saturating_sub(1)), Some(len), Some(len.saturating_add(1)), Some(31), Some(32), Some(33), Some(127), Some(128), Some(129), Some(255)]; v.sort(); v.dedup(); v };
+        let valid = |v4: bool, len: u8, ml: Option<u8>| len <= fam_max(v4) && ml.map(|m| len <= m && m <= fam_max(v4)).unwrap_or(true);
+        let twin = |v4: bool, a: u128, len: u8, ml: Option<u8>| -> (MP, u8, u32) { (MP { v4, addr: a & !low_ones(fam_w(v4) - len as u32), len }, ml.unwrap_or(len), asn) };
+        // judge what one attestation hands out for the entries pushed (family, address, length, max-len) in order
+        let judge = |fl: &mut Fails, oc: &mut Oc, att: &rpki::repository::roa::RouteOriginAttestation, entries: &[(bool, u128, u8, Option<u8>)], how: &dyn Fn() -> String, strict_equivalence: bool| {
+            // entries in the order the attestation lists them: v4 first
+            let ordered: Vec<&(bool, u128, u8, Option<u8>)> = entries.iter().filter(|e| e.0).chain(entries.iter().filter(|e| !e.0)).collect();
+            let expect: Vec<(MP, u8, u32)> = ordered.iter().filter(|e| valid(e.0, e.2, e.3)).map(|e| twin(e.0, e.1, e.2, e.3)).collect();
+            match guard(|| att.iter_origins().collect::<Vec<RouteOrigin>>()) {
+                Err(p) => fl.fail("C13.routes.nopanic", &|| format!("{} ; iter_origins()", how()), || p),
+                Ok(os) => {
+                    let mut got = Vec::new();
+                    for (k, o) in os.iter().enumerate() {
+                        match guard(|| origin_laws(*o)) {
+                            Ok(Ok(t)) => got.push(t),
+                            Ok(Err(e)) | Err(e) => fl.fail("C13.routes.origin.laws", &|| format!("{} ; iter_origins() item {k}", how()), || e),
+                        }
+                    }
+                    bump(oc, if os.is_empty() { "no-origin-yielded" } else { "origins-yielded" });
+                    if got.len() == os.len() && got != expect && (strict_equivalence || !os.is_empty()) {
+                        fl.fail("C13.routes.equivalence", &|| format!("{} ; iter_origins()", how()), || format!("yields {:?}; the entries valid by the integer model are {:?}",
+                            got.iter().map(|t| format!("{}-{} AS{}", t.0.text(), t.1, t.2)).collect::<Vec<_>>(), expect.iter().map(|t| format!("{}-{} AS{}", t.0.text(), t.1, t.2)).collect::<Vec<_>>()));
+                    }
+                }
+            }
+            match guard(|| att.iter().collect::<Vec<_>>()) {
+                Err(p) => fl.fail("C13.routes.nopanic", &|| format!("{} ; iter()", how()), || p),
+                Ok(fs) => {
+                    if fs.len() != ordered.len() { fl.fail("C13.routes.equivalence", &|| format!("{} ; iter()", how()), || format!("{} addresses listed, {} entries pushed", fs.len(), ordered.len())); return }
+                    for (k, (f, e)) in fs.iter().zip(&ordered).enumerate() {
+                        let (v4, a, len, ml) = **e;
+                        let wit = || format!("{} ; iter() item {k} ({f}) ; Prefix::from", how());
+                        match guard(|| Prefix::from(*f)) {
+                            Err(p) => if len <= fam_max(v4) { fl.fail("C13.routes.nopanic", &wit, || p) } else { bump(oc, "friendly-address-beyond-the-family-refused-by-panic") },
+                            Ok(p) => { bump(oc, "friendly-address-converted");
+                                fl.check("C13.routes.prefix.laws", &wit, || prefix_laws(p).map(|_| ()));
+                                if len <= fam_max(v4) { fl.check("C13.routes.equivalence", &wit, || { let o = observe(p); let want = twin(v4, a, len, None).0; if o == want { Ok(()) } else { Err(format!("converts to {}, the entry is {}", o.text(), want.text())) } }); }
+                            }
+                        }
+                        // FriendlyRoaIpAddress has a text form of its own ("10.0.0.0/8/8-24": address/length from the resources
+                        // formatter, then /length again); it is not one of the property's types, so whether that text reads as
+                        // a MaxLenPrefix is counted, not judged - but if it does parse, the value must be the entry
+                        if valid(v4, len, ml) {
+                            let t = f.to_string(); let want = twin(v4, a, len, ml);
+                            match guard(|| MaxLenPrefix::from_str(&t)) {
+                                Ok(Ok(q)) => { bump(oc, "friendly-text-reads-as-a-max-len-prefix");
+                                    fl.check("C13.routes.equivalence", &|| format!("{} ; iter() item {k} ; to_string() ; MaxLenPrefix::from_str", how()), || {
+                                        if observe(q.prefix()) == want.0 && q.max_len() == ml { maxlen_laws(q).map(|_| ()) } else { Err(format!("{t} parses to {q:?}, the entry is {}-{:?}", want.0.text(), ml)) } }); }
+                                Ok(Err(_)) => bump(oc, "friendly-text-does-not-read-as-a-max-len-prefix-(counted-not-judged)"),
+                                Err(p) => fl.fail("C13.routes.nopanic", &|| format!("{} ; iter() item {k} ; to_string() ; MaxLenPrefix::from_str", how()), || p),
+                            }
+                        }
+                    }
+                }
+            }
+        };
+        // (a) builder
+        let work: Vec<(bool, u8)> = [true, false].into_iter().flat_map(|v4| (0..=128u8).map(move |l| (v4, l))).collect();
+        let res: Vec<(Fails, Oc, u64, u64)> = work.par_iter().map(|&(v4, len)| {
+            let mut fl = Fails::new(); let mut oc: Oc = BTreeMap::new(); let (mut ev, mut nt) = (0u64, 0u64);
+            for (pi, &a) in pats(fam_w(v4)).iter().enumerate() { for form in 0..3usize {
+                let entries: Vec<(bool, u128, u8, Option<u8>)> = mls(len).into_iter().map(|ml| (v4, a, len, ml)).collect();
+                let how = || format!("RoaBuilder::new(AS{asn}) ; {} for address={} length={len} max_len in {:?} ; to_attestation()", ["push_addr(IpAddr, ..)", "push_v4_addr / push_v6_addr", "push_v4 / push_v6(RoaIpAddress::new(resources::Prefix::new(..)))"][form], ip(v4, a), mls(len));
+                let att = guard(|| { let mut b = RoaBuilder::new(Asn::from_u32(asn));
+                    for &(_, _, _, ml) in &entries { match (form, v4) {
+                        (0, _) => b.push_addr(ip(v4, a), len, ml),
+                        (1, true) => b.push_v4_addr(Ipv4Addr::from(a as u32), len, ml), (1, false) => b.push_v6_addr(Ipv6Addr::from(a), len, ml),
+                        (_, true) => b.push_v4(RoaIpAddress::new(ResPrefix::new(ip(v4, a), len), ml)), (_, false) => b.push_v6(RoaIpAddress::new(ResPrefix::new(ip(v4, a), len), ml)),
+                    } }
+                    b.to_attestation() });
+                ev += entries.len() as u64; nt += entries.iter().filter(|e| valid(e.0, e.2, e.3)).count() as u64;
+                let _ = pi;
+                match att { Err(p) => fl.fail("C13.routes.nopanic", &how, || p), Ok(att) => judge(&mut fl, &mut oc, &att, &entries, &how, true) }
+            }}
+            // mixed families in one builder, v6 pushed first
+            if v4 && len <= 32 {
+                let entries = vec![(false, low_ones(128), len.saturating_mul(4), Some(128u8)), (true, low_ones(32), len, None), (false, 1u128 << 127, 1, None), (true, 0, len, Some(32))];
+                let how = || format!("RoaBuilder::new(AS{asn}) ; push_addr of {:?} ; to_attestation()", entries.iter().map(|e| format!("{}/{} max_len {:?}", ip(e.0, e.1), e.2, e.3)).collect::<Vec<_>>());
+                ev += 4; nt += 4;
+                match guard(|| { let mut b = RoaBuilder::new(Asn::from_u32(asn)); for e in &entries { b.push_addr(ip(e.0, e.1), e.2, e.3) } b.to_attestation() }) {
+                    Err(p) => fl.fail("C13.routes.nopanic", &how, || p), Ok(att) => judge(&mut fl, &mut oc, &att, &entries, &how, true) }
+            }
+            (fl, oc, ev, nt)
+        }).collect();
+        for (fl, oc, ev, nt) in res { fl.flush(ctx); sp.merge_outcomes(&oc); sp.evals(ev); sp.nontrivial(nt) }
+        // (b) decoder
+        let template = guard(|| { let mut b = RoaBuilder::new(Asn::from_u32(asn)); b.push_addr(ip(true, 0x0a00_0000), 8, None); b.finalize(sigobj_builder(), &signer, &Kid(0)).ok() });
+        let mut decoded = 0u64;
+        match template {
+            Ok(Some(t)) => {
+                let cert = t.cert().to_captured().as_slice().to_vec();
+                let ski = t.cert().subject_key_identifier().as_slice().to_vec();
+                let work: Vec<(bool, u8)> = (0..=40u8).map(|l| (true, l)).chain((0..=136u8).map(|l| (false, l))).collect();
+                let verdict_diffs = AtomicU64::new(0);
+                let res: Vec<(Fails, Oc, u64, u64)> = work.par_iter().map(|&(v4, len)| {
+                    let mut fl = Fails::new(); let mut oc: Oc = BTreeMap::new(); let (mut ev, mut nt) = (0u64, 0u64);
+                    for pat in [0xffu8, 0x00, 0x55] {
+                        let nbytes = (len as usize).div_ceil(8); let unused = (nbytes * 8 - len as usize) as u8;
+                        let mut bits = vec![pat; nbytes]; if unused > 0 { let l = bits.len() - 1; bits[l] &= 0xffu8 << unused }
+                        // the address these bits denote, in the family's width (meaningful when the length fits the family)
+                        let w = fam_w(v4); let mut a: u128 = 0; for (i, b) in bits.iter().enumerate() { if (i as u32) < w / 8 { a |= (*b as u128) << (w - 8 - 8 * i as u32) } }
+                        let mut m: Vec<Option<u128>> = mls(len).into_iter().map(|x| x.map(|y| y as u128)).collect(); m.push(Some(256));
+                        for ml in m {
+                            let ra = [der::RoaAddr { bits: bits.clone(), unused, max_len: ml }];
+                            let content = if v4 { der::roa_content(None, asn as u128, Some(&ra), None) } else { der::roa_content(None, asn as u128, None, Some(&ra)) };
+                            let bytes = bytes::Bytes::from(signed_object_der(der::OID_CT_ROA, content, &cert, &ski));
+                            let ml8: Option<Option<u8>> = match ml { None => Some(None), Some(x) if x <= 255 => Some(Some(x as u8)), _ => None };
+                            let ok_model = ml8.map(|m8| valid(v4, len, m8)).unwrap_or(false);
+                            for strict in [true, false] {
+                                ev += 1; if ok_model { nt += 1 }
+                                let how = || format!("independently encoded ROA: AS{asn} family={} address bits={} ({len} bits) max_len={ml:?} ; Roa::decode({}) ; content()", if v4 { "IPv4" } else { "IPv6" }, rpki_verif::hex(&bits), if strict { "strict" } else { "not strict" });
+                                match guard(|| Roa::decode(bytes.clone(), strict).ok()) {
+                                    Err(p) => fl.fail("C13.routes.nopanic", &how, || p),
+                                    Ok(None) => { bump(&mut oc, "decoder-refused"); if ok_model { verdict_diffs.fetch_add(1, AtomicOrdering::Relaxed); } }
+                                    Ok(Some(r)) => { bump(&mut oc, "decoder-accepted");
+                                        match ml8 { Some(m8) if len <= 128 => { if !ok_model { verdict_diffs.fetch_add(1, AtomicOrdering::Relaxed); } judge(&mut fl, &mut oc, r.content(), &[(v4, a, len, m8)], &how, ok_model) }
+                                            _ => { verdict_diffs.fetch_add(1, AtomicOrdering::Relaxed); let n = guard(|| r.content().iter_origins().filter_map(|o| origin_laws(o).err()).collect::<Vec<_>>()); if let Ok(errs) = n { for e in errs { fl.fail("C13.routes.origin.laws", &how, || e) } } } }
+                                    }
+                                }
+                            }
+                        }
+                    }
+                    (fl, oc, ev, nt)
+                }).collect();
+                for (fl, oc, ev, nt) in res { fl.flush(ctx); sp.merge_outcomes(&oc); sp.evals(ev); sp.nontrivial(nt); decoded += ev }
+                sp.set("decoder_verdicts_differing_from_the_model_counted_not_judged", json!(verdict_diffs.load(AtomicOrdering::Relaxed)));
+            }
+            other => ctx.fail("C13.routes.nopanic", "RoaBuilder::new(AS64496) ; push_addr(10.0.0.0, 8, None) ; finalize", format!("the template object could not be built: {:?}", other.map(|o| o.is_some()))),
+        }
+        // (c) From conversions over the prefix domain of prefix.relations (short lengths) and deep lengths
+        let mut dom: Vec<MP> = Vec::new();
+        for v4 in [true, false] { let w = fam_w(v4);
+            for len in 0..=5u8 { for k in 0..(1u128 << len) { dom.push(MP { v4, addr: if len == 0 { 0 } else { k << (w - len as u32) }, len }) } }
+            for len in 6..=fam_max(v4) { for a in [0u128, low_ones(w), low_ones(w) / 3] { dom.push(MP { v4, addr: a & !low_ones(w - len as u32), len }) } } }
+        dom.sort(); dom.dedup();
+        for m in &dom {
+            sp.evals(2); sp.nontrivial(1);
+            let Ok(Ok(p)) = guard(|| Prefix::new(m.ip(), m.len)) else { continue };
+            ctx.check("C13.routes.maxlen.laws", || format!("MaxLenPrefix::from(Prefix {})", m.text()), || {
+                let v = MaxLenPrefix::from(p); let (o, ml) = maxlen_laws(v)?;
+                if o != *m || ml.is_some() || v != MaxLenPrefix::new(p, None).map_err(|e| e.to_string())? { return Err(format!("gives {v:?}")) }
+                Ok(())
+            });
+            ctx.check("C13.routes.equivalence", || format!("repository::resources::IpBlock::from(Prefix {})", m.text()), || {
+                let b = IpBlock::from(p);
+                let shift = 128 - fam_w(m.v4); let (lo, hi) = (m.lo() << shift, (m.lo() << shift) | low_ones(128 - m.len as u32));
+                if b.min().to_bits() != lo || b.max().to_bits() != hi { return Err(format!("the block spans {:032x}..={:032x}, the prefix {lo:032x}..={hi:032x} (addresses left-aligned in 128 bits)", b.min().to_bits(), b.max().to_bits())) }
+                Ok(())
+            });
+            sp.outcome(if m.v4 { "conversion-of-a-v4-prefix" } else { "conversion-of-a-v6-prefix" });
+        }
+        sp.set("decoded_objects", json!(decoded)); sp.set("conversion_domain", json!(dom.len()));
+        sp.sample_str(|| "RoaBuilder::new(AS64496) ; push_v4_addr(255.255.255.255, 24, max_len in {None, 0, 23, 24, 25, 31, 32, 33, ..}) ; to_attestation() ; iter_origins() must yield 255.255.255.0/24 with max-len 24 (None), 24, 25, 31, 32 and nothing else".into());
+        sp.done(true, &format!("builder: 2 families x 129 lengths x 4 addresses x 3 push forms x <= 12 max-lens + 33 mixed builders; decoder: {decoded} decodes (41 + 137 bit-string lengths x 3 patterns x <= 13 max-lens x strict / not); {} prefixes through the From conversions", dom.len()));
+        lap(t0, &sp.name);
+    }
+
+    // -------------------------------------------------------------------------------- routes.rtr_pdu
+    let sp = ctx.space("routes.rtr_pdu",
+        "rtr::pdu::Payload -> to_payload(): family x EVERY prefix-length octet 0..=255 x EVERY max-len octet 0..=255 x 3 addresses (all ones - host bits set -, zero, alternating), announce (and withdraw for the first address), both as constructed PDU (Ipv4Prefix::new / Ipv6Prefix::new) and READ FROM THE WIRE (pdu::Payload::read over hand-assembled octets; the two PDUs must be equal): a route origin that comes out obeys the origin laws; PDUs valid by the integer model (length <= max-len <= family maximum) must give exactly the origin built by the public constructors (host bits cleared), the others no lawless value; pdu::Payload::new(origin) -> to_payload() gives the origin back; ProviderAsns::try_from_iter(l).iter(), payload::Aspa through pdu::Payload::new -> to_payload() and the PDU read from the wire hand back every list l of <= 3 menu ASNs unchanged; non-trivial = PDUs valid by the model");
+    {
+        let asn = 65551u32;
+        let work: Vec<(bool, u8)> = [true, false].into_iter().flat_map(|v4| (0..=255u8).map(move |l| (v4, l))).collect();
+        let res: Vec<(Fails, Oc, u64, u64)> = work.par_iter().map(|&(v4, plen)| {
+            let mut fl = Fails::new(); let mut oc: Oc = BTreeMap::new(); let (mut ev, mut nt) = (0u64, 0u64);
+            let rt = tokio::runtime::Builder::new_current_thread().build().expect("runtime");
+            let w = fam_w(v4); let full = low_ones(w);
+            for (pi, a) in [full, 0, full / 3].into_iter().enumerate() { for ml in 0..=255u8 { for flags in [1u8, 0] {
+                if flags == 0 && pi != 0 { continue }
+                let ok_model = plen <= fam_max(v4) && plen <= ml && ml <= fam_max(v4);
+                ev += 2; if ok_model { nt += 1 }
+                let wit = |route: &str| format!("{route} {}(version 1, flags {flags}, prefix_len {plen}, max_len {ml}, {}, AS{asn}) ; to_payload()", if v4 { "Ipv4Prefix" } else { "Ipv6Prefix" }, ip(v4, a));
+                let made = if v4 { pdu::Payload::V4(pdu::Ipv4Prefix::new(1, flags, plen, ml, Ipv4Addr::from(a as u32), Asn::from_u32(asn))) } else { pdu::Payload::V6(pdu::Ipv6Prefix::new(1, flags, plen, ml, Ipv6Addr::from(a), Asn::from_u32(asn))) };
+                let mut wire: Vec<u8> = vec![1, if v4 { 4 } else { 6 }, 0, 0, 0, 0, 0, if v4 { 20 } else { 32 }, flags, plen, ml, 0];
+                if v4 { wire.extend_from_slice(&(a as u32).to_be_bytes()) } else { wire.extend_from_slice(&a.to_be_bytes()) }
+                wire.extend_from_slice(&asn.to_be_bytes());
+                let read = guard(|| rt.block_on(async { let mut s: &[u8] = &wire; pdu::Payload::read(&mut s).await }));
+                let read = match read { Ok(Ok(Ok(Some(p)))) => Some(p), Ok(_) => None, Err(p) => { fl.fail("C13.routes.nopanic", &|| wit("read from the wire:"), || p); None } };
+                match &read { Some(p) if *p == made => {}, other => fl.fail("C13.routes.equivalence", &|| wit("read from the wire:"), || format!("pdu::Payload::read of {} gives {other:?}, the constructed PDU is {made:?}", rpki_verif::hex(&wire))) }
+                for (route, p) in [("constructed", Some(&made)), ("read from the wire:", read.as_ref())] {
+                    let Some(p) = p else { continue };
+                    match guard(|| p.to_payload().ok()) {
+                        Err(pn) => fl.fail("C13.routes.nopanic", &|| wit(route), || pn),
+                        Ok(None) => { bump(&mut oc, "pdu-refused"); if ok_model { fl.fail("C13.routes.equivalence", &|| wit(route), || "a PDU that is valid by the integer model is refused".into()) } }
+                        Ok(Some((action, pl))) => {
+                            bump(&mut oc, if ok_model { "pdu-accepted" } else { "pdu-accepted-though-invalid-by-the-model" });
+                            if action.is_announce() != (flags & 1 == 1) { fl.fail("C13.routes.equivalence", &|| wit(route), || format!("action {action:?} from flags {flags}")) }
+                            match pl.to_origin() {
+                                None => fl.fail("C13.routes.equivalence", &|| wit(route), || format!("a prefix PDU becomes {pl:?}")),
+                                Some(o) => match guard(|| origin_laws(o)) {
+                                    Ok(Ok(t)) => { let want = (MP { v4, addr: a & !low_ones(w - (plen as u32).min(w)), len: plen }, ml, asn);
+                                        if ok_model && t != want { fl.fail("C13.routes.equivalence", &|| wit(route), || format!("gives {}-{} AS{}, the PDU says {}-{} AS{}", t.0.text(), t.1, t.2, want.0.text(), want.1, want.2)) }
+                                        // and back: the PDU made from this origin gives the origin again
+                                        if pi == 0 { fl.check("C13.routes.equivalence", &|| format!("{} ; pdu::Payload::new(1, {flags}, origin) ; to_payload()", wit(route)), || {
+                                            let back = pdu::Payload::new(1, flags, PayloadRef::Origin(o)).to_payload().map_err(|_| "refused".to_string())?.1.to_origin();
+                                            if back == Some(o) && back.map(|b| h(&b)) == Some(h(&o)) { Ok(()) } else { Err(format!("comes back as {back:?}, not {o:?}")) } }); }
+                                    }
+                                    Ok(Err(e)) | Err(e) => fl.fail("C13.routes.origin.laws", &|| wit(route), || e),
+                                }
+                            }
+                        }
+                    }
+                }
+            }}}
+            (fl, oc, ev, nt)
+        }).collect();
+        for (fl, oc, ev, nt) in res { fl.flush(ctx); sp.merge_outcomes(&oc); sp.evals(ev); sp.nontrivial(nt) }
+        // routes that hand out ASNs
+        let rt = tokio::runtime::Builder::new_current_thread().build().expect("runtime");
+        for l in &lists3 { for cust in [64496u32, menu[3]] {
+            sp.evals(3);
+            ctx.check("C13.routes.equivalence", || format!("ProviderAsns::try_from_iter({}) customer=AS{cust}", show_asns(l)), || {
+                let v = |i: &mut dyn Iterator<Item = Asn>| i.map(|a| a.into_u32()).collect::<Vec<u32>>();
+                let pa = pdu::ProviderAsns::try_from_iter(l.iter().map(|&x| Asn::from_u32(x))).map_err(|e| e.to_string())?;
+                if v(&mut pa.iter()) != *l || pa.asn_count() as usize != l.len() || pa.is_empty() != l.is_empty() { return Err(format!("iter() yields {:?}, asn_count() = {}", v(&mut pa.iter()), pa.asn_count())) }
+                let pl = Payload::aspa(Asn::from_u32(cust), pa.clone());
+                let made = pdu::Payload::new(2, 1, pl.as_ref());
+                let (action, back) = made.to_payload().map_err(|_| "pdu::Payload::new(aspa) ; to_payload() refused".to_string())?;
+                let ba = back.as_aspa().ok_or("not an ASPA payload")?;
+                if !action.is_announce() || ba.customer.into_u32() != cust || v(&mut ba.providers.iter()) != *l || back != pl || h(&back) != h(&pl) { return Err(format!("through the PDU it comes back as {back:?}")) }
+                let mut wire: Vec<u8> = vec![2, 11, 1, 0]; wire.extend_from_slice(&(12 + 4 * l.len() as u32).to_be_bytes()); wire.extend_from_slice(&cust.to_be_bytes()); for x in l { wire.extend_from_slice(&x.to_be_bytes()) }
+                let read = rt.block_on(async { let mut s: &[u8] = &wire; pdu::Payload::read(&mut s).await }).map_err(|e| e.to_string())?;
+                match read { Ok(Some(p)) if p == made => {}, other => return Err(format!("read from the wire {} gives {other:?}", rpki_verif::hex(&wire))) }
+                for &x in l.iter().chain([&cust]) { match Asn::from_str(&Asn::from_u32(x).to_string()) { Ok(q) if q.into_u32() == x => {}, other => return Err(format!("AS{x} parses back to {other:?}")) } }
+                Ok(())
+            });
+            sp.outcome(if l.windows(2).all(|w| w[0] < w[1]) { "asn-list-ascending" } else { "asn-list-unsorted-or-repeating" });
+        }}
+        sp.sample_str(|| "constructed Ipv4Prefix(version 1, flags 1, prefix_len 24, max_len 24, 255.255.255.255, AS65551) ; to_payload() -> 255.255.255.0/24-24 AS65551; prefix_len 24, max_len 23 -> refused".into());
+        sp.done(true, "2 families x 256 prefix lengths x 256 max-lens x 3 addresses (+ withdraw for one) x {constructed, read from the wire}; 85 ASN lists x 2 customers x 3 routes");
+        lap(t0, &sp.name);
+    }
+
+    // ---------------------------------------------------------------------------------- routes.slurm
+    let sp = ctx.space("routes.slurm",
+        "SLURM JSON as a route to Prefix / MaxLenPrefix / RouteOrigin: prefix texts of EVERY length of both families at 2 addresses (zero, leading ones) x maxPrefixLength in {absent, 0, len-1, len, len+1, 31, 32, 33, 127, 128, 129, 255, 256} deserialized as PrefixAssertion, as PrefixFilter and inside a whole SlurmFile (from_str -> assertions.iter_payload(), filters.prefix): a value that comes out obeys the max-len prefix / prefix / origin laws; inputs valid by the integer model must give exactly the constructed twin, survive Serialize -> Deserialize unchanged and appear as the same origin in iter_payload(); non-trivial = inputs valid by the model");
+    {
+        let mut texts: Vec<MP> = Vec::new();
+        for v4 in [true, false] { let w = fam_w(v4); for len in 0..=fam_max(v4) { for a in [0u128, low_ones(w)] { texts.push(MP { v4, addr: a & !low_ones(w - len as u32), len }) } } }
+        texts.sort(); texts.dedup();
+        let res: Vec<(Fails, Oc, u64, u64)> = texts.par_iter().map(|m| {
+            let mut fl = Fails::new(); let mut oc: Oc = BTreeMap::new(); let (mut ev, mut nt) = (0u64, 0u64);
+            let mut mls: Vec<Option<u32>> = vec![None, Some(0), Some((m.len as u32).saturating_sub(1)), Some(m.len as u32), Some(m.len as u32 + 1), Some(31), Some(32), Some(33), Some(127), Some(128), Some(129), Some(255), Some(256)];
+            mls.sort(); mls.dedup();
+            for ml in mls {
+                let ok_model = ml.map(|x| m.len as u32 <= x && x <= fam_max(m.v4) as u32).unwrap_or(true);
+                ev += 3; if ok_model { nt += 1 }
+                let obj = match ml { None => format!("{{\"prefix\":\"{}\",\"asn\":64496}}", m.text()), Some(x) => format!("{{\"prefix\":\"{}\",\"asn\":64496,\"maxPrefixLength\":{x}}}", m.text()) };
+                let wit = |route: &str| format!("{route} of {obj}");
+                let ml8 = ml.map(|x| x.min(255) as u8);
+                match guard(|| serde_json::from_str::<rpki::slurm::PrefixAssertion>(&obj).ok()) {
+                    Err(p) => fl.fail("C13.routes.nopanic", &|| wit("PrefixAssertion::deserialize"), || p),
+                    Ok(None) => { bump(&mut oc, "assertion-refused"); if ok_model { fl.fail("C13.routes.equivalence", &|| wit("PrefixAssertion::deserialize"), || "an assertion that is valid by the integer model is refused".into()) } }
+                    Ok(Some(a)) => { bump(&mut oc, "assertion-accepted");
+                        fl.check("C13.routes.maxlen.laws", &|| wit("PrefixAssertion::deserialize"), || {
+                            let (o, got_ml) = maxlen_laws(a.prefix)?;
+                            if ok_model && (o != *m || got_ml != ml8 || a.asn.into_u32() != 64496) { return Err(format!("gives {:?} AS{}", a.prefix, a.asn.into_u32())) }
+                            Ok(())
+                        });
+                        fl.check("C13.routes.equivalence", &|| wit("PrefixAssertion::deserialize ; Serialize ; Deserialize"), || {
+                            let js = serde_json::to_string(&a).map_err(|e| e.to_string())?;
+                            match serde_json::from_str::<rpki::slurm::PrefixAssertion>(&js) { Ok(b) if b == a && h(&b.prefix) == h(&a.prefix) => Ok(()), other => Err(format!("{js} comes back as {other:?}")) }
+                        });
+                    }
+                }
+                match guard(|| serde_json::from_str::<rpki::slurm::PrefixFilter>(&format!("{{\"prefix\":\"{}\"}}", m.text())).ok()) {
+                    Ok(Some(f)) => { fl.check("C13.routes.prefix.laws", &|| format!("PrefixFilter::deserialize of {{\"prefix\":\"{}\"}}", m.text()), || match f.prefix { Some(p) => { let o = prefix_laws(p)?; if o == *m { Ok(()) } else { Err(format!("gives {}", o.text())) } }, None => Err("no prefix".into()) }); }
+                    Ok(None) => fl.fail("C13.routes.equivalence", &|| format!("PrefixFilter::deserialize of {{\"prefix\":\"{}\"}}", m.text()), || "a valid prefix is refused".into()),
+                    Err(p) => fl.fail("C13.routes.nopanic", &|| format!("PrefixFilter::deserialize of {{\"prefix\":\"{}\"}}", m.text()), || p),
+                }
+                let file = format!("{{\"slurmVersion\":1,\"validationOutputFilters\":{{\"prefixFilters\":[{{\"prefix\":\"{}\"}}],\"bgpsecFilters\":[]}},\"locallyAddedAssertions\":{{\"prefixAssertions\":[{obj}],\"bgpsecAssertions\":[]}}}}", m.text());
+                match guard(|| rpki::slurm::SlurmFile::from_str(&file).ok()) {
+                    Err(p) => fl.fail("C13.routes.nopanic", &|| wit("SlurmFile::from_str around"), || p),
+                    Ok(None) => { bump(&mut oc, "file-refused"); if ok_model { fl.fail("C13.routes.equivalence", &|| wit("SlurmFile::from_str around"), || "a file that is valid by the integer model is refused".into()) } }
+                    Ok(Some(f)) => { bump(&mut oc, "file-accepted");
+                        fl.check("C13.routes.origin.laws", &|| wit("SlurmFile::from_str ; assertions.iter_payload() around"), || {
+                            let ps: Vec<Payload> = f.assertions.iter_payload().collect();
+                            if ps.len() != 1 { return Err(format!("{} payload items", ps.len())) }
+                            let o = ps[0].to_origin().ok_or("not an origin")?;
+                            let t = origin_laws(o)?;
+                            if ok_model && t != (*m, ml8.unwrap_or(m.len), 64496) { return Err(format!("gives {}-{} AS{}", t.0.text(), t.1, t.2)) }
+                            match f.filters.prefix.first().and_then(|x| x.prefix) { Some(p) => { if prefix_laws(p)? != *m { return Err(format!("the filter's prefix is {p:?}")) } }, None => return Err("the filter has no prefix".into()) }
+                            if ok_model && !f.filters.prefix[0].drop_origin(o) { return Err("the filter on the same prefix does not cover the assertion's origin".into()) }
+                            match rpki::slurm::SlurmFile::from_str(&f.to_string()) { Ok(g) if g == f => Ok(()), other => Err(format!("to_string() parses back to {other:?}")) }
+                        });
+                    }
+                }
+            }
+            (fl, oc, ev, nt)
+        }).collect();
+        for (fl, oc, ev, nt) in res { fl.flush(ctx); sp.merge_outcomes(&oc); sp.evals(ev); sp.nontrivial(nt) }
+        sp.set("prefix_texts", json!(texts.len()));
+        sp.sample_str(|| "PrefixAssertion::deserialize of {\"prefix\":\"255.255.0.0/16\",\"asn\":64496,\"maxPrefixLength\":15} -> refused; maxPrefixLength 16 -> 255.255.0.0/16-16".into());
+        sp.done(true, &format!("{} prefix texts (every length of both families x 2 addresses) x <= 13 maxPrefixLength values x 3 deserialization routes", texts.len()));
+        lap(t0, &sp.name);
+    }
+}
+
+/// `SmallAsnSet` and `rtr::Payload` drawn through Arbitrary: further public routes to values of the property's types.
+#[cfg(not(feature = "with-arbitrary"))]
+fn arbitrary_routes_space(_ctx: &Ctx, _t0: &std::time::Instant) {}
+#[cfg(feature = "with-arbitrary")]
+fn arbitrary_routes_space(ctx: &Ctx, t0: &std::time::Instant) {
+    use arbitrary::{Arbitrary, Unstructured};
+    let sp = ctx.space("routes.arbitrary",
+        "SmallAsnSet::arbitrary and rtr::payload::Payload::arbitrary on EVERY octet string of length <= 2 and on structured inputs: for sets, every sequence of <= 3 (thorough 4) ASNs out of {0, 200, 65536, MAX} spelled as Arbitrary's element stream (continue-octet 1 + four octets, little- and big-endian, end-octet 0) - sorted, unsorted and repeating; for payloads, a zero discriminant + family bit x every length octet x 3 address patterns x 7 max-len encodings: a set that is produced obeys the set laws, an origin that is produced obeys the origin laws; non-trivial = inputs that produce a value with at least 2 items / an origin");
+    let menu: [u32; 4] = [0, 200, 65536, u32::MAX];
+    let sc = set_ctx(&menu);
+    let sl: u32 = ctx.tier.pick(3, 4);
+    let mut inputs: Vec<Vec<u8>> = vec![vec![]];
+    for l in 1..=2usize { for i in 0..(256u64.pow(l as u32)) { inputs.push((0..l).map(|k| (i >> (8 * k)) as u8).collect()) } }
+    let mut idx = Vec::new();
+    for i in 0..seq_count(4, sl) { seq_at(4, sl, i, &mut idx); for be in [false, true] { for tail in [vec![0u8], vec![]] {
+        let mut v = Vec::new(); for &k in &idx { v.push(1u8); v.extend_from_slice(&if be { menu[k].to_be_bytes() } else { menu[k].to_le_bytes() }) } v.extend_from_slice(&tail); inputs.push(v) } } }
+    inputs.sort(); inputs.dedup();
+    let n_set_inputs = inputs.len();
+    let pats: [[u8; 16]; 3] = [[0; 16], [0xff; 16], [0xaa; 16]];
+    for disc in [[0u8; 4], [0x10, 0, 0, 0]] { for fam in [0u8, 1] { for lenb in 0..=255u8 { for pat in &pats { for ml in [[0u8, 0], [1, 0], [1, 32], [1, 33], [1, 128], [1, 129], [1, 255]] {
+        let mut v = disc.to_vec(); v.extend_from_slice(&[fam, lenb]); v.extend_from_slice(pat); v.extend_from_slice(&ml); v.extend_from_slice(&[0xff; 4]); inputs.push(v) } } } } }
+    let res: Vec<(Fails, Oc, u64)> = inputs.par_chunks(2048).enumerate().map(|(ck, chunk)| {
+        let mut fl = Fails::new(); let mut oc: Oc = BTreeMap::new(); let mut nt = 0u64;
+        for (k, data) in chunk.iter().enumerate() {
+            let wit = || format!("input_hex={}", rpki_verif::hex(data));
+            if ck * 2048 + k < n_set_inputs {
+                match guard(|| SmallAsnSet::arbitrary(&mut Unstructured::new(data))) {
+                    Err(p) => fl.fail("C13.routes.nopanic", &|| format!("SmallAsnSet::arbitrary {}", wit()), || p),
+                    Ok(Err(_)) => bump(&mut oc, "set-not-produced"),
+                    Ok(Ok(s)) => { bump(&mut oc, SIZE_CLASS[s.len().min(5)]); if s.len() >= 2 { nt += 1 }
+                        fl.check("C13.routes.arbitrary.asnset", &|| format!("SmallAsnSet::arbitrary {}", wit()), || set_laws(&s, &sc).map(|_| ())); }
+                }
+            }
+            match guard(|| Payload::arbitrary(&mut Unstructured::new(data))) {
+                Err(p) => fl.fail("C13.routes.nopanic", &|| format!("rtr::Payload::arbitrary {}", wit()), || p),
+                Ok(Err(_)) => bump(&mut oc, "payload-not-produced"),
+                Ok(Ok(p)) => match p.to_origin() { None => bump(&mut oc, "payload-of-another-kind"),
+                    Some(o) => { bump(&mut oc, "origin-produced"); nt += 1; fl.check("C13.routes.arbitrary.origin", &|| format!("rtr::Payload::arbitrary {}", wit()), || origin_laws(o).map(|_| ())); } }
+            }
+        }
+        (fl, oc, nt)
+    }).collect();
+    for (fl, oc, nt) in res { fl.flush(ctx); sp.merge_outcomes(&oc); sp.nontrivial(nt) }
+    sp.evals((inputs.len() + n_set_inputs) as u64);
+    sp.set("set_inputs", json!(n_set_inputs)); sp.set("inputs", json!(inputs.len()));
+    sp.sample_str(|| "input_hex=01c8000000010000000000 -> SmallAsnSet::arbitrary draws the items [200, 0]; the set must iterate as [0, 200]".into());
+    sp.done(true, &format!("{n_set_inputs} inputs to SmallAsnSet::arbitrary (all octet strings of length <= 2 + all ASN sequences of length <= {sl} in 4 spellings), {} inputs to Payload::arbitrary", inputs.len()));
+    lap(t0, &sp.name);
 }
 
 // ---------------------------------------------------------------------- main
@@ -1496,6 +2148,8 @@ fn main() {
         lap(&t0, &sp.name);
     }
     arbitrary_space(&ctx, &t0);
+    routes_spaces(&ctx, &t0);
+    arbitrary_routes_space(&ctx, &t0);
     history_spaces(&ctx, &t0);
     let suppressed = SUPPRESSED.load(AtomicOrdering::Relaxed);
     if suppressed > 0 {
